@@ -13,6 +13,15 @@ KIND = {"g": "Get", "a": "Append", "i": "Add", "s": "Set", "d": "Delete", "l": "
         "r": "Range", "v": "AsSlice"}
 
 
+def bare(o):
+    """operation token without the `~` (= not observed) prefix"""
+    return o[1:] if o.startswith("~") else o
+
+
+def kind_of(o):
+    return KIND[bare(o)[0]]
+
+
 # ----------------------------------------------------------------------------- generation
 class Gen:
     """Builds one history while tracking the abstract sequence (only to choose indices)."""
@@ -23,6 +32,8 @@ class Gen:
         self.ops = []
         self.next = r.choice([1, 1, 100, 1000000])
         self.stats = stats
+        self.sparse = False       # sparse observation: only ~1/3 of the ops are followed by the observers
+        self.quiet = False        # inside a burst of unobserved ops
 
     def val(self):
         x = self.r.random()
@@ -48,11 +59,89 @@ class Gen:
         else:
             i = self.r.choice([-2, -100, n + 2, n + 100, 1 << 40, -(1 << 40)])
         self.stats["idx_valid" if 0 <= i <= hi_valid else "idx_invalid"] += 1
+        if 0 <= i <= hi_valid:
+            self.last_idx = i
         return i
 
     def emit(self, tok):
-        self.ops.append(tok)
+        if self.sparse:
+            if self.quiet or self.r.random() >= 1 / 3:
+                self.stats["ops_unobserved"] += 1
+                self.ops.append("~" + tok)
+            else:
+                self.stats["ops_observed_in_sparse"] += 1
+                self.ops.append(tok)
+        else:
+            self.ops.append(tok)
         self.stats["op_" + KIND[tok[0]]] += 1
+
+    def near(self, hi_valid):
+        """a valid index, preferring the neighbourhood of the last index used and the two ends"""
+        if hi_valid < 0:
+            return 0
+        last = getattr(self, "last_idx", 0)
+        i = self.r.choice([last, last, last - 1, last + 1, hi_valid, hi_valid, hi_valid, 0, hi_valid // 2,
+                           self.r.randint(0, hi_valid)])
+        return min(max(i, 0), hi_valid)
+
+    def burst(self):
+        """a few unobserved operations around one index: the length is unchanged (Delete+Add, Set burst) or restored
+        and slightly grown at the far end (Get, Delete, Append..., then one more access at the same index)"""
+        n = len(self.seq)
+        if n == 0:
+            self.append(self.r.choice([1, 3, 20]))
+            return
+        self.quiet = True
+        self.stats["bursts"] += 1
+        k = self.r.random()
+        if k < 0.3:                       # Delete then Add (1-2 times)
+            for _ in range(self.r.randint(1, 2)):
+                i = self.near(len(self.seq) - 1)
+                del self.seq[i]
+                self.emit("d:%d" % i)
+                j = self.near(len(self.seq))
+                x = self.val()
+                self.seq.insert(j, x)
+                self.emit("i:%d:%d" % (j, x))
+                self.last_idx = j
+        elif k < 0.5:                     # Set burst
+            for _ in range(self.r.randint(2, 5)):
+                i, x = self.near(n - 1), self.val()
+                self.seq[i] = x
+                self.emit("s:%d:%d" % (i, x))
+                self.last_idx = i
+        else:                             # Get, Delete, Append (then often one more access at the same index)
+            i = self.near(n - 1)
+            self.emit("g:%d" % i)
+            j = i if self.r.random() < 0.6 else self.near(n - 1)
+            del self.seq[j]
+            self.emit("d:%d" % j)
+            for _ in range(self.r.choice([1, 1, 2])):      # refill at the end, in one or two calls
+                xs = [self.val() for _ in range(self.r.choice([1, 1, 2, 3]))]
+                self.seq += xs
+                self.emit("a:" + ",".join(map(str, xs)))
+            self.last_idx = j
+            if self.r.random() < 0.8:
+                w = self.r.random()
+                if w < 0.4:
+                    self.emit("g:%d" % j)
+                elif w < 0.6:
+                    y = self.val()
+                    self.seq[j] = y
+                    self.emit("s:%d:%d" % (j, y))
+                elif w < 0.8:
+                    y = self.val()
+                    self.seq.insert(j, y)
+                    self.emit("i:%d:%d" % (j, y))
+                    del self.seq[-1]
+                    self.emit("d:%d" % len(self.seq))
+                else:
+                    del self.seq[j]
+                    self.emit("d:%d" % j)
+                    y = self.val()
+                    self.seq.append(y)
+                    self.emit("a:%d" % y)
+        self.quiet = False
 
     def get(self):
         self.emit("g:%d" % self.index(len(self.seq) - 1))
@@ -153,7 +242,8 @@ def gen_histories(c):
     r = random.Random(c.seed * 1000003 + 4)
     full = c.tier == "thorough"
     st = c.cov.setdefault("distribution", {})
-    for k in ["idx_valid", "idx_invalid", "drains_to_empty", "hist_random", "hist_drain", "hist_regression"] + \
+    for k in ["idx_valid", "idx_invalid", "drains_to_empty", "hist_random", "hist_drain", "hist_regression", "hist_sparse",
+              "ops_unobserved", "ops_observed_in_sparse", "bursts"] + \
              ["op_" + v for v in KIND.values()]:
         st[k] = 0
     hs = []
@@ -180,9 +270,30 @@ def gen_histories(c):
             w = (("get", 8), ("append", 20), ("add", 40), ("set", 5), ("delete", 8), ("len", 2), ("cap", 2),
                  ("range", 5), ("asslice", 5))
         while len(g.ops) < n_ops:
-            g.random_op(w)
+            if r.random() < 0.08:
+                g.burst()
+            else:
+                g.random_op(w)
         hs.append((im, cap0, g.ops))
         st["hist_random"] += 1
+    # sparse observation: Len/AsSlice(/Cap) only after ~1/3 of the ops, bursts of unobserved length-preserving mutations
+    n_sparse = 12000 if full else 260
+    for k in range(n_sparse):
+        im = IMPLS[k % len(IMPLS)]
+        cap0 = CAPS[(k // len(IMPLS)) % len(CAPS)]
+        g = Gen(r, st)
+        g.sparse = True
+        g.append(r.choice([2, 5, 12, 17, 18, 20, 25, 33, 40, 66]))
+        n_ops = r.randint(6, 50)
+        while len(g.ops) < n_ops:
+            if r.random() < 0.3:
+                g.burst()
+            else:
+                g.random_op()
+        g.sparse = False
+        g.emit(r.choice(["l", "v", "r:-1"]))       # the final state is always observed
+        hs.append((im, cap0, g.ops))
+        st["hist_sparse"] += 1
     # grow past 64 / 2048, drain to empty, refill
     sizes = [66, 70, 130, 65, 129, 257, 300, 66] if not full else \
         [66, 70, 130, 257, 600] * 30 + [2049, 2050, 2100, 2500] * 6 + [5000] * 8
@@ -277,6 +388,7 @@ def max_len_bound(h):
     """upper bound of the length the list can reach in this history"""
     n = 0
     for o in h[2]:
+        o = bare(o)
         if o[0] == "a":
             n += o.count(",") + 1 if len(o) > 2 else 0
         elif o[0] == "i":
@@ -365,10 +477,11 @@ def minimise(runner, h, budget=40):
     for _ in range(12):
         cands = []
         for j, o in enumerate(ops):
-            if o.startswith("a:") and o.count(",") >= 1:
-                xs = o[2:].split(",")
+            if bare(o).startswith("a:") and o.count(",") >= 1:
+                pre = "~" if o.startswith("~") else ""
+                xs = bare(o)[2:].split(",")
                 for keep in (xs[:len(xs) // 2], xs[len(xs) // 2:]):
-                    cands.append(ops[:j] + ["a:" + ",".join(keep)] + ops[j + 1:])
+                    cands.append(ops[:j] + [pre + "a:" + ",".join(keep)] + ops[j + 1:])
         if not cands:
             break
         ks = failing([(im, cap0, o) for o in cands[:200]])
@@ -416,7 +529,7 @@ def res_to_coq(t):
 
 
 def op_to_coq(o):
-    p = o.split(":")
+    p = bare(o).split(":")
     if p[0] == "g":
         return "OpGet %s" % coq_z(p[1])
     if p[0] == "a":
@@ -459,13 +572,16 @@ Definition agree (o : outcome out) (e : xres) : bool :=
   | Err _, XErrOther => true
   | Panic, XPanic => true
   | _, _ => false end.
-Definition agree4 (m : outcome out * outcome out * outcome out * outcome out) (e : xres * xres * xres) : bool :=
-  let '(r, rl, rs, _) := m in let '(er, el, es) := e in agree r er && agree rl el && agree rs es.
-Definition check (c : impl * Z * list (op * Z) * list (xres * xres * xres)) : bool :=
+Definition agree4 (m : outcome out * option (outcome out * outcome out * outcome out)) (e : xres * option (xres * xres)) : bool :=
+  match m, e with
+  | (r, Some (rl, rs, _)), (er, Some (el, es)) => agree r er && agree rl el && agree rs es
+  | (r, None), (er, None) => agree r er
+  | _, _ => false end.
+Definition check (c : impl * Z * list (op * Z * bool) * list (xres * option (xres * xres))) : bool :=
   let '(im, c0, h, e) := c in
   let m := obs_run (linit im c0) h in
   Nat.eqb (length m) (length e) && forallb (fun p => agree4 (fst p) (snd p)) (combine m e).
-Definition cases : list (impl * Z * list (op * Z) * list (xres * xres * xres)) :=
+Definition cases : list (impl * Z * list (op * Z * bool) * list (xres * option (xres * xres))) :=
 """
 
 
@@ -479,12 +595,16 @@ def crosscheck(c, hs, results):
     for i in idx:
         im, cap0, ops = hs[i]
         caps = results[i]["caps"]
-        hist = coq_list(["(%s, %s)" % (op_to_coq(o), coq_z(caps[k]) if k < len(caps) and caps[k] != "-" else "0")
+        hist = coq_list(["(%s, %s, %s)" % (op_to_coq(o), coq_z(caps[k]) if k < len(caps) and caps[k] != "-" else "0",
+                                           "false" if o.startswith("~") else "true")
                          for k, o in enumerate(ops)])
         exp = []
         for e in results[i]["model"]:
             p = e.split("|")
-            exp.append("(%s, %s, %s)" % (res_to_coq(p[0]), res_to_coq("len:" + p[1]), res_to_coq("s:" + p[2])))
+            if p[1] == "~":
+                exp.append("(%s, None)" % res_to_coq(p[0]))
+            else:
+                exp.append("(%s, Some (%s, %s))" % (res_to_coq(p[0]), res_to_coq("len:" + p[1]), res_to_coq("s:" + p[2])))
         items.append("(%s, %s, %s, %s)" % (impl_to_coq(im), coq_z(cap0), hist, coq_list(exp)))
     v = CROSS_PRELUDE + "  [" + ";\n   ".join(items) + "].\n" + \
         "Definition bad := Eval vm_compute in length (filter (fun c => negb (check c)) cases).\nPrint bad.\n"
@@ -500,7 +620,7 @@ def crosscheck(c, hs, results):
 def nontrivial(h, impl):
     """a history is non-trivial when it has a failing call AND a successful structural change"""
     failed = any(e.startswith("e:") for e in impl)
-    changed = any(o[0] in "aid" and e.startswith(("ok", "v:")) for o, e in zip(h[2], impl))
+    changed = any(bare(o)[0] in "aid" and e.startswith(("ok", "v:")) for o, e in zip(h[2], impl))
     return failed and changed
 
 
@@ -542,7 +662,7 @@ def main(tier):
                 grow += cp > prev
                 shrinks += cp < prev
             prev = cp
-            if j < len(r["mcaps"]) and r["mcaps"][j] != "-":
+            if j < len(r["mcaps"]) and r["mcaps"][j] not in ("-", "~"):
                 if r["mcaps"][j] == str(cp):
                     cap_eq += 1
                 else:
@@ -565,7 +685,7 @@ def main(tier):
     # ---------------- search layer: every disagreement is a failing history; minimise it
     seen = set()
     for h, r, k in failing:
-        pre = "C04:%s:%s:%s" % (h[0], KIND[h[2][k][0]], classify(h, k, r["impl"], r["model"], r["fresh"]))
+        pre = "C04:%s:%s:%s" % (h[0], kind_of(h[2][k]), classify(h, k, r["impl"], r["model"], r["fresh"]))
         if pre in seen or len(seen) >= 8:
             c.cov["violations_not_minimised"] = c.cov.get("violations_not_minimised", 0) + 1
             continue
@@ -575,7 +695,7 @@ def main(tier):
         km = first_diff(m, rr["impl"], rr["spec"], rr["fresh"])
         if km is None:          # implementation agrees with the abstract sequence but not with the model
             km2 = first_diff(m, rr["impl"], rr["model"], rr["fresh"])
-            c.report("C04:model:%s:%s" % (h[0], KIND[h[2][k][0]]),
+            c.report("C04:model:%s:%s" % (h[0], kind_of(h[2][k])),
                      "model and implementation disagree but the abstract sequence agrees with the implementation "
                      "(the model does not describe the code)",
                      {"kind": "correspondence", "history": hist_line(h, r["caps"])[:4000], "first_diverging_op": k,
@@ -583,8 +703,8 @@ def main(tier):
                       "minimised_first_diff": km2}, found_input=False)
             continue
         cls = classify(m, km, rr["impl"], rr["spec"], rr["fresh"])
-        kind = KIND[m[2][km][0]]
-        prevk = KIND[m[2][km - 1][0]] if km > 0 else "-"
+        kind = kind_of(m[2][km])
+        prevk = kind_of(m[2][km - 1]) if km > 0 else "-"
         what = ("%s: after %s the implementation shows %r, the abstract sequence %r (op #%d %r of the minimised history)"
                 % (m[0], kind, rr["impl"][km] if km < len(rr["impl"]) else "<missing>",
                    rr["spec"][km] if km < len(rr["spec"]) else "<missing>", km, m[2][km]))
